@@ -1,6 +1,7 @@
 import Ecal.Props.C04
 import Ecal.Lemmas.C04Wiring
 import Ecal.Lemmas.C04Shape
+import Ecal.Lemmas.C04Order
 /-!
 # C04 at the level of `eval`
 
@@ -229,5 +230,106 @@ theorem eval_guardloop_is_guardLoop_wf (n : Node) (hwf : Ecal.Parse.WellFormed n
   intro hg f sc
   rw [eval_guardloop_is_guardLoop f sc n c0 body hn hc hg, scopeName_eq _ _ ht]
   simp
+
+/-! ### the loop-variable binder raises no loop signal; break / continue in `for … in` loops -/
+
+/-- `m` never ends in a break or continue signal -/
+def NoSig {α : Type} (m : M α) : Prop :=
+  ∀ s e s', run m s = (.error e, s') → e.isBreak = false ∧ e.isContinue = false
+
+theorem NoSig.pure {α : Type} (a : α) : NoSig (pure a : M α) := by intro s e s' h; cases h
+theorem NoSig.throw {α : Type} (e : Sig) (h : e.isBreak = false ∧ e.isContinue = false) : NoSig (throw e : M α) := by
+  intro s e' s' h'; cases h'; exact h
+theorem NoSig.bind {α β : Type} (m : M α) (k : α → M β) (hm : NoSig m) (hk : ∀ a, NoSig (k a)) : NoSig (m >>= k) := by
+  intro s e s' h
+  rw [run_bind] at h
+  rcases hr : run m s with ⟨r, s1⟩
+  rw [hr] at h
+  cases r with
+  | ok a => exact hk a s1 e s' h
+  | error e1 => cases h; exact hm s _ _ hr
+theorem NoSig.attempt {α : Type} (m : M α) : NoSig (attemptE m) := by
+  intro s e s' h; rw [run_attempt] at h; cases h
+
+theorem NoSig.forIn {α β : Type} (l : List α) (g : α → β → M (ForInStep β)) (h : ∀ a b, NoSig (g a b)) :
+    ∀ b, NoSig (forIn l b g) := by
+  induction l with
+  | nil => intro b; simp only [List.forIn_nil]; exact NoSig.pure b
+  | cons a l ih =>
+    intro b
+    simp only [List.forIn_cons]
+    refine NoSig.bind _ _ (h a b) ?_
+    intro r
+    cases r with
+    | done b' => exact NoSig.pure b'
+    | yield b' => exact ih b'
+
+theorem getList_noSig (r l : Nat) : NoSig (getList r l) := by
+  intro s e s' h; cases h
+
+/-- **bindLoopVars raises neither break nor continue** (its failures are "Runtime error"s at the loop) -/
+theorem bindLoopVars_noSig (ls : Nat) (n : Node) (vars : List (List Nat)) (item : Val) :
+    NoSig (bindLoopVars ls n vars item) := by
+  have hwrap : ∀ m : M Unit, NoSig (do
+      match ← attemptE m with
+      | .ok _ => Pure.pure ()
+      | .error e => if e.isFatal then throw e else throw (rtErr "Runtime error" n)) := by
+    intro m
+    refine NoSig.bind _ _ (NoSig.attempt m) ?_
+    intro r
+    cases r with
+    | ok _ => exact NoSig.pure ()
+    | error e =>
+      by_cases hf : e.isFatal = true
+      · simp only [hf, if_true]; exact NoSig.throw e (not_signal_of_fatal hf)
+      · simp only [hf]; exact NoSig.throw _ (rtErr_runtime_not_signal n)
+  unfold bindLoopVars
+  simp only []
+  split
+  · exact hwrap _
+  · split
+    · refine NoSig.bind _ _ (getList_noSig _ _) ?_
+      intro xs
+      split
+      · exact NoSig.throw _ (rtErr_runtime_not_signal n)
+      · refine NoSig.bind _ _ (NoSig.forIn _ _ ?_ _) (fun _ => NoSig.pure _)
+        intro a b
+        exact NoSig.bind _ _ (hwrap _) (fun _ => NoSig.pure _)
+    · exact NoSig.throw _ (rtErr_runtime_not_signal n)
+
+/-- **eval_break_continue_innermost** (`for v in e` loop): once the iterable has been evaluated (`loopStart`
+    succeeded), evaluating the loop node never ends in a break or a continue signal: both act on THIS
+    loop, whatever the block does and however deep they are raised (outside nested loops) -/
+theorem eval_break_continue_innermost_forin (f sc ls : Nat) (n c0 iv it body : Node) (t tv : Tok)
+    (s s0 s2 s' : St) (start : IterSt) (e : Sig)
+    (hn : n.name = "loop") (hc : n.children = [some c0, some body]) (h0 : c0.name = "in")
+    (h0c : c0.children = [some iv, some it]) (hiv : iv.name = "identifier") (hivc : iv.children = [])
+    (hivt : iv.tok = some tv) (ht : n.tok = some t)
+    (hsc : run (newChild sc (blockName n t)) s = (.ok ls, s0))
+    (hst : run (loopStart f ls it) { s0 with isStore := s0.isStore.push [], curIs := s0.isStore.size } = (.ok start, s2))
+    (h : run (eval (f+2) sc n) s = (.error e, s')) : e.isBreak = false ∧ e.isContinue = false := by
+  rw [eval_iterloop_is_iterLoop f sc n c0 iv it body tv hn hc h0 h0c hiv hivc hivt, scopeName_eq _ _ ht] at h
+  simp only [pure_bind, run_bind, hsc] at h
+  have h1 := withFreshIs_outcome (do
+      let start ← loopStart f ls it
+      iterLoop (iterNext f ls n it) (bindLoopVars ls n [tv.val]) (eval f ls body) f start) s0
+  rw [h] at h1
+  simp only [run_bind, hst] at h1
+  rcases hm : run (iterLoop (iterNext f ls n it) (bindLoopVars ls n [tv.val]) (eval f ls body) f start) s2 with ⟨r, s3⟩
+  rw [hm] at h1
+  simp only at h1
+  subst h1
+  exact break_continue_innermost_iter _ _ _ (fun v s e s' hb => bindLoopVars_noSig ls n [tv.val] v s e s' hb) f start s2 s3 e hm
+
+/-! ### map order, unconditional -/
+
+/-- **loop_map_sorted**: the keys of a `for [k, v] in map` loop, as the evaluator orders them
+    (`sortBy` with the byte order of their string forms), are a permutation of the keys in ascending byte
+    order of the string forms -/
+theorem loop_map_sorted (keyed : List (List Nat × Val)) :
+    (sortBy (fun a b => bytesLt a.1 b.1) keyed).Perm keyed ∧
+    (sortBy (fun a b => bytesLt a.1 b.1) keyed).Pairwise (fun a b => bytesLt b.1 a.1 = false) :=
+  ⟨sortBy_perm _ _, sortBy_sorted _ (fun a b h => bytesLt_asym a.1 b.1 h)
+    (fun a b c h1 h2 => bytesLt_le_trans a.1 b.1 c.1 h1 h2) keyed⟩
 
 end Ecal.Props.C04
